@@ -327,7 +327,7 @@ def run_bulk_boundary(res, tier, seed, only=None):
         prev = "c%d" % i
     ks = [batch - 1, batch, batch - 2, 1, batch // 2] if tier != "quick" else [batch - 1, batch]
     if only is not None:
-        ks = [only]
+        ks = [only] if only != "short_height" else []
     simnet.install()
     old_default = BS.DefaultBlockStore.instance
     try:
@@ -388,6 +388,56 @@ def run_bulk_boundary(res, tier, seed, only=None):
                 res.fail("store", "rejected-block-in-store", "%s was refused, but after a restart it is in the block store / the rebuilt chain state" % what, case)
             if nxt is not None and nxt.id() not in disk:
                 res.fail("store", "accepted-block-not-in-store", "%s was refused; a valid block relayed afterwards is not in the store after a restart" % what, case)
+        if only is None or only == "short_height":
+            # the same block in a SECOND encoding: block 64 (its height is written 0x80 0x40 on the deployed network) is relayed
+            # once as it is and once with the height squeezed into one octet -- the repeated delivery must have no effect
+            import struct
+            d = env.fresh_subdir("c09short")
+            path = os.path.join(d, "chain.db")
+            with env.quiet():
+                store = BS.BlockStore(path)
+            BS.DefaultBlockStore.instance = store
+            net = simnet.Net()
+            node = net.add("n", "10.0.0.1", CoinState.zero(), 7, disk=simnet.StoreDisk())
+            node.cm.started_at = -10 ** 9
+            w1 = simnet.Wire(net, node, host="10.0.1.10")
+            w1.greet(nonce=501)
+            w2 = simnet.Wire(net, node, host="10.0.1.11")
+            w2.greet(nonce=502)
+            for x in chain[:64]:
+                simnet.CLOCK.now = x.ts + 1
+                w1.send(M.DataMessage(M.DATA_BLOCK, b.to_sk_block(x)))
+                w1.deliver()
+            net.drain(None, only=[node])
+            x = chain[63]
+            raw = x.raw()
+            case = {"bulk_boundary": "short_height"}
+            if len(node.cm.coinstate.block_by_hash) != 65 or R.vlq(64) != raw[1:3]:
+                raise env.HarnessError("the 64-block chain was not adopted / unexpected height encoding")
+            alt = raw[:1] + b"\x40" + raw[3:]
+            w2.collect()
+            n0 = len(w2.received)
+            rows0 = store.sql("select count(*) from chain").fetchone()[0]
+            w1.msg_id += 1
+            data = M.MessageHeader(1, w1.msg_id, 0, 9).serialize() + M.MSG_DATA + b"\x00" + M.DATA_BLOCK + alt
+            if not w1.connected:
+                w1 = simnet.Wire(net, node, host="10.0.1.12")
+                w1.greet(nonce=503)
+            w1.send_raw(b"MAJI" + struct.pack(">I", len(data)) + data)
+            net.drain(None, only=[node])
+            w2.collect()
+            res.evaluations += 65
+            res.nontrivial("bulk_boundary:short_height")
+            n_state = len(node.cm.coinstate.block_by_hash)
+            rows1 = store.sql("select count(*) from chain").fetchone()[0]
+            relayed = sum(1 for (h, m) in w2.received[n0:] if isinstance(m, M.DataMessage) and m.data_type == M.DATA_BLOCK and h.in_response_to == 0)
+            if n_state != 65 or rows1 != rows0 or relayed:
+                res.fail("state", "second-encoding-of-a-known-block-had-an-effect", "block 64 relayed again with its height in one octet: chain state holds %d blocks (65 before), the store %d rows (%d before), %d copies were relayed" % (
+                    n_state, rows1, rows0, relayed), case)
+            bad_ids = [i for i, blk_ in node.cm.coinstate.block_by_hash.items() if i != R.sha256d(blk_.header.serialize())]
+            if bad_ids:
+                res.fail("state", "block-known-under-an-id-that-is-not-its-header-hash", "after the repeated delivery chain state knows a block under an id that is not the hash of its header", case)
+            store.close()
     finally:
         BS.DefaultBlockStore.instance = old_default
     res.sample({"bulk_boundary": ks, "batch": batch})
